@@ -246,6 +246,9 @@ func (in *Interp) Decide(cond Val, site ssa.Instruction) bool {
 		return !in.Decide(&Sym{Op: "==", Args: sy.Args, T: sy.T}, site)
 	}
 	k := Key(cond)
+	if len(k) > 20000 {
+		in.Undecided("symbolic condition too large (an unbounded loop over symbolic data)", site)
+	}
 	if b, ok := in.Conds[k]; ok {
 		return b
 	}
